@@ -23,7 +23,10 @@ META = {
         'export/import path conflates a logical with the equal number, and a '
         'cache of compiled cells is keyed by everything the compiled function '
         'depends on (the cell itself included). The writer/reader pairing '
-        'follows helper functions of the same module.'),
+        'follows helper functions of the same module; (fallback) the cell '
+        'constructor and the defined-name constructor it falls back to in '
+        'from_dict receive the same instruction on whether the value is to be '
+        'parsed as a formula.'),
     'not_decided': (
         'Value equality after the round trip and the fixed point of repeated '
         'exports for all workbooks.'),
@@ -383,6 +386,102 @@ def rule_refs(ctx):
     return rr
 
 
+def rule_fallback(ctx):
+    """from_dict builds a cell and, when the key is not a range (ValueError),
+    falls back to a defined name built from the *same* value: both constructors
+    must be told the same about how to read that value (whether text that looks
+    like a formula is parsed)."""
+    rr = RuleResult('C09', 'C09.fallback', 'SIB',
+                    'cell and defined-name constructors read the imported '
+                    'value the same way', floor=1)
+    p = ctx.project
+    f = p.func(EXCEL, 'ExcelModel.from_dict')
+    cell = p.cls('formulas/cell.py', 'Cell')
+    init = cell.methods.get('__init__')
+    if init is None:
+        raise AnalysisError('Cell.__init__ not found')
+    # parameters of Cell.__init__ that decide whether the value is parsed
+    deciding = set()
+    for n in own_nodes(init):
+        if isinstance(n, ast.If) and any(
+                isinstance(c, ast.Call) and call_name(c) in ('ast', 'is_formula')
+                for c in ast.walk(n.test) if isinstance(c, ast.Call)) or (
+                isinstance(n, ast.If) and any(
+                    isinstance(c, ast.Call) and call_name(c) == 'ast'
+                    for s_ in n.body for c in ast.walk(s_))):
+            deciding |= {x.id for x in ast.walk(n.test)
+                         if isinstance(x, ast.Name) and x.id in init.params}
+    deciding -= set(init.params[:3])  # self, reference, value
+    if not deciding:
+        raise AnalysisError('Cell.__init__: parameters deciding whether the '
+                            'value is parsed were not found')
+    family = set(p.subclasses(cell)) | {cell}
+
+    def ctor_kwargs(call):
+        """Keyword names a constructor call may pass (through **dict too)."""
+        names, maybe = set(), set()
+        for k in call.keywords:
+            if k.arg is not None:
+                names.add(k.arg)
+            elif isinstance(k.value, ast.Name):
+                for n in own_nodes(f):
+                    if isinstance(n, ast.Assign):
+                        for t in n.targets:
+                            if isinstance(t, ast.Name) and t.id == k.value.id \
+                                    and isinstance(n.value, ast.Dict):
+                                names |= {kk.value for kk in n.value.keys
+                                          if isinstance(kk, ast.Constant)}
+                            if isinstance(t, ast.Subscript) and isinstance(
+                                    t.value, ast.Name) and t.value.id == \
+                                    k.value.id and isinstance(
+                                    t.slice, ast.Constant):
+                                maybe.add(t.slice.value)
+        return names, maybe
+
+    found = 0
+    for n in own_nodes(f):
+        if not isinstance(n, ast.Try):
+            continue
+        prim = [c for s_ in n.body for c in ast.walk(s_)
+                if isinstance(c, ast.Call) and isinstance(
+                    c.func, (ast.Name, ast.Attribute)) and (
+                    ctx.cg.resolve_name_expr(f, c.func) or (None,))[0] ==
+                'class' and ctx.cg.resolve_name_expr(f, c.func)[1] in family]
+        for h in n.handlers:
+            fb = [c for s_ in h.body for c in ast.walk(s_)
+                  if isinstance(c, ast.Call) and isinstance(
+                      c.func, (ast.Name, ast.Attribute)) and (
+                      ctx.cg.resolve_name_expr(f, c.func) or (None,))[0] ==
+                  'class' and ctx.cg.resolve_name_expr(f, c.func)[1] in family]
+            if not (prim and fb):
+                continue
+            found += 1
+            rr.instances += 1
+            pn, pm = ctor_kwargs(prim[0])
+            fn_, fm = ctor_kwargs(fb[0])
+            diff = sorted(((pn | pm) ^ (fn_ | fm)) & deciding)
+            if diff:
+                rr.fail(key_of(f, 'fallback constructor reads the value '
+                                  'differently'),
+                        'from_dict tries `%s` and falls back to `%s` with the '
+                        'same value, but only one of them can be passed %s '
+                        '(which decides whether the value is parsed as a '
+                        'formula): a value prepared for one reading is read '
+                        'the other way by the fallback - text that looks like '
+                        'a formula becomes a formula for defined names' % (
+                            norm_src(prim[0])[:50], norm_src(fb[0])[:50],
+                            ', '.join(diff)), file=EXCEL,
+                        function=f.qualname, line=fb[0].lineno)
+            else:
+                rr.ok('primary and fallback constructors agree on %s' %
+                      ', '.join(sorted(deciding)), '%s:%d' % (
+                          EXCEL, fb[0].lineno))
+    if not found:
+        raise AnalysisError('from_dict: try/except pair of cell constructors '
+                            'not found')
+    return rr
+
+
 def _retag(r, prop, rule):
     r.prop, r.rule = prop, rule
     for f in r.findings:
@@ -408,6 +507,7 @@ def run(ctx):
         ck.ok('import/export keep no hand-written cache of compiled cells',
               EXCEL, nontrivial=False)
     rs.append(ck)
+    rs.append(rule_fallback(ctx))
     pr = ctx.project
     rs.append(rule_memo(ctx, 'C09', 'C09.memo', [], roots=[
         pr.func(EXCEL, 'ExcelModel.to_dict'),
